@@ -96,3 +96,281 @@ impl vstd::std_specs::cmp::PartialEqSpecImpl for crate::uri::Port {
 }
 
 } // verus!
+
+// =====================================================================================================================
+// C08: ordering and hashing
+// =====================================================================================================================
+verus! {
+pub open spec fn ord_then(a: std::cmp::Ordering, b: std::cmp::Ordering) -> std::cmp::Ordering { if a == std::cmp::Ordering::Equal { b } else { a } }
+pub open spec fn ord_rev(a: std::cmp::Ordering) -> std::cmp::Ordering {
+    match a { std::cmp::Ordering::Less => std::cmp::Ordering::Greater, std::cmp::Ordering::Greater => std::cmp::Ordering::Less, std::cmp::Ordering::Equal => std::cmp::Ordering::Equal }
+}
+/// lexicographic order of character sequences by code point (what PctStr::cmp computes on the decoded characters)
+pub open spec fn lex_chars(a: Seq<char>, b: Seq<char>) -> std::cmp::Ordering
+    decreases a.len()
+{
+    if a.len() == 0 { if b.len() == 0 { std::cmp::Ordering::Equal } else { std::cmp::Ordering::Less } }
+    else if b.len() == 0 { std::cmp::Ordering::Greater }
+    else if (a[0] as u32) < (b[0] as u32) { std::cmp::Ordering::Less }
+    else if (a[0] as u32) > (b[0] as u32) { std::cmp::Ordering::Greater }
+    else { lex_chars(a.drop_first(), b.drop_first()) }
+}
+/// lexicographic order of byte strings (Ord of [u8], which derive(Ord) on Scheme / Port delegates to)
+pub open spec fn lex_bytes(a: Seq<u8>, b: Seq<u8>) -> std::cmp::Ordering
+    decreases a.len()
+{
+    if a.len() == 0 { if b.len() == 0 { std::cmp::Ordering::Equal } else { std::cmp::Ordering::Less } }
+    else if b.len() == 0 { std::cmp::Ordering::Greater }
+    else if a[0] < b[0] { std::cmp::Ordering::Less }
+    else if a[0] > b[0] { std::cmp::Ordering::Greater }
+    else { lex_bytes(a.drop_first(), b.drop_first()) }
+}
+pub open spec fn pct_ord(a: Seq<u8>, b: Seq<u8>) -> std::cmp::Ordering { lex_chars(pct_chars(a), pct_chars(b)) }
+
+pub open spec fn ordv_Scheme(a: Seq<u8>, b: Seq<u8>) -> std::cmp::Ordering { lex_bytes(a, b) }
+pub open spec fn ordv_Port(a: Seq<u8>, b: Seq<u8>) -> std::cmp::Ordering { lex_bytes(a, b) }
+pub open spec fn ordv_UserInfo(a: Seq<u8>, b: Seq<u8>) -> std::cmp::Ordering { pct_ord(a, b) }
+pub open spec fn ordv_Host(a: Seq<u8>, b: Seq<u8>) -> std::cmp::Ordering { pct_ord(a, b) }
+pub open spec fn ordv_Segment(a: Seq<u8>, b: Seq<u8>) -> std::cmp::Ordering { pct_ord(a, b) }
+pub open spec fn ordv_Query(a: Seq<u8>, b: Seq<u8>) -> std::cmp::Ordering { pct_ord(a, b) }
+pub open spec fn ordv_Fragment(a: Seq<u8>, b: Seq<u8>) -> std::cmp::Ordering { pct_ord(a, b) }
+/// Option: None < Some (std)
+pub open spec fn oord(a: Option<Seq<u8>>, b: Option<Seq<u8>>, inner: std::cmp::Ordering) -> std::cmp::Ordering {
+    match (a, b) { (None, None) => std::cmp::Ordering::Equal, (None, Some(_)) => std::cmp::Ordering::Less, (Some(_), None) => std::cmp::Ordering::Greater, (Some(_), Some(_)) => inner }
+}
+pub open spec fn oordv_Scheme(a: Option<Seq<u8>>, b: Option<Seq<u8>>) -> std::cmp::Ordering { oord(a, b, if a is Some && b is Some { ordv_Scheme(a.unwrap(), b.unwrap()) } else { std::cmp::Ordering::Equal }) }
+pub open spec fn oordv_Port(a: Option<Seq<u8>>, b: Option<Seq<u8>>) -> std::cmp::Ordering { oord(a, b, if a is Some && b is Some { ordv_Port(a.unwrap(), b.unwrap()) } else { std::cmp::Ordering::Equal }) }
+pub open spec fn oordv_UserInfo(a: Option<Seq<u8>>, b: Option<Seq<u8>>) -> std::cmp::Ordering { oord(a, b, if a is Some && b is Some { ordv_UserInfo(a.unwrap(), b.unwrap()) } else { std::cmp::Ordering::Equal }) }
+pub open spec fn oordv_Query(a: Option<Seq<u8>>, b: Option<Seq<u8>>) -> std::cmp::Ordering { oord(a, b, if a is Some && b is Some { ordv_Query(a.unwrap(), b.unwrap()) } else { std::cmp::Ordering::Equal }) }
+pub open spec fn oordv_Fragment(a: Option<Seq<u8>>, b: Option<Seq<u8>>) -> std::cmp::Ordering { oord(a, b, if a is Some && b is Some { ordv_Fragment(a.unwrap(), b.unwrap()) } else { std::cmp::Ordering::Equal }) }
+pub open spec fn ordv_Authority(a: Seq<u8>, b: Seq<u8>) -> std::cmp::Ordering {
+    ord_then(oordv_UserInfo(au_ui(a), au_ui(b)), ord_then(ordv_Host(au_host(a), au_host(b)), oordv_Port(au_port(a), au_port(b))))
+}
+pub open spec fn oordv_Authority(a: Option<Seq<u8>>, b: Option<Seq<u8>>) -> std::cmp::Ordering { oord(a, b, if a is Some && b is Some { ordv_Authority(a.unwrap(), b.unwrap()) } else { std::cmp::Ordering::Equal }) }
+/// lexicographic order of segment lists
+pub open spec fn lex_segs(a: Seq<Seq<u8>>, b: Seq<Seq<u8>>) -> std::cmp::Ordering
+    decreases a.len()
+{
+    if a.len() == 0 { if b.len() == 0 { std::cmp::Ordering::Equal } else { std::cmp::Ordering::Less } }
+    else if b.len() == 0 { std::cmp::Ordering::Greater }
+    else { ord_then(ordv_Segment(a[0], b[0]), lex_segs(a.drop_first(), b.drop_first())) }
+}
+/// paths: relative before absolute, then the normalized segment sequences lexicographically
+pub open spec fn ordv_Path(p: Seq<u8>, q: Seq<u8>) -> std::cmp::Ordering {
+    if p_is_abs(p) == p_is_abs(q) { lex_segs(norm_segs(p), norm_segs(q)) } else if p_is_abs(p) { std::cmp::Ordering::Greater } else { std::cmp::Ordering::Less }
+}
+pub open spec fn ordv_Ref(s: Seq<u8>, t: Seq<u8>) -> std::cmp::Ordering {
+    ord_then(oordv_Scheme(r_scheme(s), r_scheme(t)), ord_then(oordv_Authority(r_auth(s), r_auth(t)), ord_then(ordv_Path(r_path(s), r_path(t)),
+        ord_then(oordv_Query(r_query(s), r_query(t)), oordv_Fragment(r_frag(s), r_frag(t))))))
+}
+pub uninterp spec fn ord_unspec(a: Seq<u8>, b: Seq<u8>) -> std::cmp::Ordering;
+
+// ---- the hasher as a ghost log of what was fed to it ----
+pub enum HTok { Ch(char), Disc(bool), Flag(bool), Lit(Seq<u8>) }
+/// everything written into a hasher so far (uninterpreted view of any Hasher)
+pub uninterp spec fn hfed<H>(h: &H) -> Seq<HTok>;
+pub open spec fn hfeed_chars(c: Seq<char>) -> Seq<HTok> { Seq::new(c.len(), |i: int| HTok::Ch(c[i])) }
+pub open spec fn hfeed_pct(a: Seq<u8>) -> Seq<HTok> { hfeed_chars(pct_chars(a)) }
+pub open spec fn hfeed_Scheme(a: Seq<u8>) -> Seq<HTok> { seq![HTok::Lit(a)] }
+pub open spec fn hfeed_Port(a: Seq<u8>) -> Seq<HTok> { seq![HTok::Lit(a)] }
+pub open spec fn hfeed_UserInfo(a: Seq<u8>) -> Seq<HTok> { hfeed_pct(a) }
+pub open spec fn hfeed_Host(a: Seq<u8>) -> Seq<HTok> { hfeed_pct(a) }
+pub open spec fn hfeed_Segment(a: Seq<u8>) -> Seq<HTok> { hfeed_pct(a) }
+pub open spec fn hfeed_Query(a: Seq<u8>) -> Seq<HTok> { hfeed_pct(a) }
+pub open spec fn hfeed_Fragment(a: Seq<u8>) -> Seq<HTok> { hfeed_pct(a) }
+pub open spec fn ohf(a: Option<Seq<u8>>, inner: Seq<HTok>) -> Seq<HTok> { match a { None => seq![HTok::Disc(false)], Some(_) => seq![HTok::Disc(true)] + inner } }
+pub open spec fn ohfeed_Scheme(a: Option<Seq<u8>>) -> Seq<HTok> { ohf(a, if a is Some { hfeed_Scheme(a.unwrap()) } else { Seq::empty() }) }
+pub open spec fn ohfeed_Port(a: Option<Seq<u8>>) -> Seq<HTok> { ohf(a, if a is Some { hfeed_Port(a.unwrap()) } else { Seq::empty() }) }
+pub open spec fn ohfeed_UserInfo(a: Option<Seq<u8>>) -> Seq<HTok> { ohf(a, if a is Some { hfeed_UserInfo(a.unwrap()) } else { Seq::empty() }) }
+pub open spec fn ohfeed_Query(a: Option<Seq<u8>>) -> Seq<HTok> { ohf(a, if a is Some { hfeed_Query(a.unwrap()) } else { Seq::empty() }) }
+pub open spec fn ohfeed_Fragment(a: Option<Seq<u8>>) -> Seq<HTok> { ohf(a, if a is Some { hfeed_Fragment(a.unwrap()) } else { Seq::empty() }) }
+pub open spec fn hfeed_Authority(a: Seq<u8>) -> Seq<HTok> { ohfeed_UserInfo(au_ui(a)) + hfeed_Host(au_host(a)) + ohfeed_Port(au_port(a)) }
+pub open spec fn ohfeed_Authority(a: Option<Seq<u8>>) -> Seq<HTok> { ohf(a, if a is Some { hfeed_Authority(a.unwrap()) } else { Seq::empty() }) }
+/// the feeds of a list of segments, one after the other
+pub open spec fn segs_feed(l: Seq<Seq<u8>>) -> Seq<HTok>
+    decreases l.len()
+{
+    if l.len() == 0 { Seq::empty() } else { segs_feed(l.drop_last()) + hfeed_Segment(l.last()) }
+}
+pub open spec fn hfeed_Path(p: Seq<u8>) -> Seq<HTok> { seq![HTok::Flag(p_is_abs(p))] + segs_feed(norm_segs(p)) }
+pub open spec fn hfeed_Ref(s: Seq<u8>) -> Seq<HTok> {
+    ohfeed_Scheme(r_scheme(s)) + ohfeed_Authority(r_auth(s)) + hfeed_Path(r_path(s)) + ohfeed_Query(r_query(s)) + ohfeed_Fragment(r_frag(s))
+}
+
+// ---- dependency / std / derive: ASSUMED meaning ----
+// pct_str::PctStr::cmp (lib.rs:397): compares the decoded characters pairwise with char::cmp, shorter is less
+pub assume_specification [<pct_str::PctStr as Ord>::cmp] (a: &pct_str::PctStr, b: &pct_str::PctStr) -> (r: std::cmp::Ordering)
+    ensures r == pct_ord(pct_text(a), pct_text(b));
+// pct_str::PctStr::hash (lib.rs:423): feeds every decoded character
+pub assume_specification<H: std::hash::Hasher> [<pct_str::PctStr as std::hash::Hash>::hash::<H>] (a: &pct_str::PctStr, state: &mut H)
+    ensures hfed(final(state)) == hfed(old(state)) + hfeed_pct(pct_text(a));
+// std: bool::hash feeds the flag
+pub assume_specification<H: std::hash::Hasher> [<bool as std::hash::Hash>::hash::<H>] (a: &bool, state: &mut H)
+    ensures hfed(final(state)) == hfed(old(state)) + seq![HTok::Flag(*a)];
+// derive(PartialOrd, Ord) on Scheme / Port (newtypes over [u8]): the order of the byte slices
+impl vstd::std_specs::cmp::PartialOrdSpecImpl for crate::uri::Scheme {
+    open spec fn obeys_partial_cmp_spec() -> bool { true }
+    open spec fn partial_cmp_spec(&self, other: &crate::uri::Scheme) -> Option<std::cmp::Ordering> { Some(ordv_Scheme(bytes_of(self), bytes_of(other))) }
+}
+impl vstd::std_specs::cmp::OrdSpecImpl for crate::uri::Scheme {
+    open spec fn obeys_cmp_spec() -> bool { true }
+    open spec fn cmp_spec(&self, other: &crate::uri::Scheme) -> std::cmp::Ordering { ordv_Scheme(bytes_of(self), bytes_of(other)) }
+}
+impl vstd::std_specs::cmp::PartialOrdSpecImpl for crate::uri::Port {
+    open spec fn obeys_partial_cmp_spec() -> bool { true }
+    open spec fn partial_cmp_spec(&self, other: &crate::uri::Port) -> Option<std::cmp::Ordering> { Some(ordv_Port(bytes_of(self), bytes_of(other))) }
+}
+impl vstd::std_specs::cmp::OrdSpecImpl for crate::uri::Port {
+    open spec fn obeys_cmp_spec() -> bool { true }
+    open spec fn cmp_spec(&self, other: &crate::uri::Port) -> std::cmp::Ordering { ordv_Port(bytes_of(self), bytes_of(other)) }
+}
+} // verus!
+
+// ---- C08 consequences: Equal coincides with the equivalence, the order is total, equal values feed the hasher alike ----
+verus! {
+/// what a total preorder demands of the three outcomes ord(a,b), ord(b,c), ord(a,c)
+pub open spec fn ord_trans_ok(x: std::cmp::Ordering, y: std::cmp::Ordering, z: std::cmp::Ordering) -> bool {
+    (x == std::cmp::Ordering::Equal ==> z == y) && (y == std::cmp::Ordering::Equal ==> z == x) && (x == y ==> z == x)
+}
+pub proof fn lemma_lex_chars(a: Seq<char>, b: Seq<char>, c: Seq<char>)
+    ensures
+        (lex_chars(a, b) == std::cmp::Ordering::Equal) == (a == b),
+        lex_chars(b, a) == ord_rev(lex_chars(a, b)),
+        ord_trans_ok(lex_chars(a, b), lex_chars(b, c), lex_chars(a, c)),
+    decreases a.len() + b.len()
+{
+    if a.len() > 0 && b.len() > 0 {
+        let c1 = if c.len() > 0 { c.drop_first() } else { c };
+        lemma_lex_chars(a.drop_first(), b.drop_first(), c1);
+        if a[0] == b[0] && a.drop_first() == b.drop_first() {
+            assert(a.len() == b.len()) by { assert(a.drop_first().len() == b.drop_first().len()); }
+            assert forall|i: int| 0 <= i < a.len() implies a[i] == b[i] by { if i > 0 { assert(a[i] == a.drop_first()[i - 1]); assert(b[i] == b.drop_first()[i - 1]); } }
+            assert(a =~= b);
+        }
+        if a == b { assert(a.drop_first() == b.drop_first()); }
+        if c.len() > 0 && b[0] == c[0] { }
+    } else {
+        if a.len() == 0 && b.len() == 0 { assert(a =~= b); }
+    }
+}
+pub proof fn lemma_lex_bytes(a: Seq<u8>, b: Seq<u8>, c: Seq<u8>)
+    ensures
+        (lex_bytes(a, b) == std::cmp::Ordering::Equal) == (a == b),
+        lex_bytes(b, a) == ord_rev(lex_bytes(a, b)),
+        ord_trans_ok(lex_bytes(a, b), lex_bytes(b, c), lex_bytes(a, c)),
+    decreases a.len() + b.len()
+{
+    if a.len() > 0 && b.len() > 0 {
+        let c1 = if c.len() > 0 { c.drop_first() } else { c };
+        lemma_lex_bytes(a.drop_first(), b.drop_first(), c1);
+        if a[0] == b[0] && a.drop_first() == b.drop_first() {
+            assert(a.len() == b.len()) by { assert(a.drop_first().len() == b.drop_first().len()); }
+            assert forall|i: int| 0 <= i < a.len() implies a[i] == b[i] by { if i > 0 { assert(a[i] == a.drop_first()[i - 1]); assert(b[i] == b.drop_first()[i - 1]); } }
+            assert(a =~= b);
+        }
+        if a == b { assert(a.drop_first() == b.drop_first()); }
+    } else {
+        if a.len() == 0 && b.len() == 0 { assert(a =~= b); }
+    }
+}
+pub proof fn lemma_pct_ord(a: Seq<u8>, b: Seq<u8>, c: Seq<u8>)
+    ensures
+        (pct_ord(a, b) == std::cmp::Ordering::Equal) == pct_eq(a, b),
+        pct_ord(b, a) == ord_rev(pct_ord(a, b)),
+        ord_trans_ok(pct_ord(a, b), pct_ord(b, c), pct_ord(a, c)),
+{
+    lemma_lex_chars(pct_chars(a), pct_chars(b), pct_chars(c));
+}
+pub proof fn lemma_lex_segs(a: Seq<Seq<u8>>, b: Seq<Seq<u8>>, c: Seq<Seq<u8>>)
+    ensures
+        (lex_segs(a, b) == std::cmp::Ordering::Equal) == segl_eqv(a, b),
+        lex_segs(b, a) == ord_rev(lex_segs(a, b)),
+        ord_trans_ok(lex_segs(a, b), lex_segs(b, c), lex_segs(a, c)),
+    decreases a.len() + b.len()
+{
+    if a.len() > 0 && b.len() > 0 {
+        let c1 = if c.len() > 0 { c.drop_first() } else { c };
+        let c0 = if c.len() > 0 { c[0] } else { a[0] };
+        lemma_lex_segs(a.drop_first(), b.drop_first(), c1);
+        lemma_pct_ord(a[0], b[0], c0);
+        let ta = a.drop_first(); let tb = b.drop_first();
+        if segl_eqv(a, b) {
+            assert forall|i: int| 0 <= i < ta.len() implies eqv_Segment(#[trigger] ta[i], tb[i]) by { assert(eqv_Segment(a[i + 1], b[i + 1])); }
+            assert(eqv_Segment(a[0], b[0]));
+        }
+        if segl_eqv(ta, tb) && eqv_Segment(a[0], b[0]) {
+            assert forall|i: int| 0 <= i < a.len() implies eqv_Segment(#[trigger] a[i], b[i]) by { if i > 0 { assert(eqv_Segment(ta[i - 1], tb[i - 1])); } }
+        }
+    }
+}
+/// the three statements for whole references (URIs / IRIs are references with a scheme)
+pub proof fn lemma_ordv_ref(s: Seq<u8>, t: Seq<u8>, u: Seq<u8>)
+    ensures
+        (ordv_Ref(s, t) == std::cmp::Ordering::Equal) == eqv_Ref(s, t),
+        ordv_Ref(t, s) == ord_rev(ordv_Ref(s, t)),
+        ord_trans_ok(ordv_Ref(s, t), ordv_Ref(t, u), ordv_Ref(s, u)),
+{
+    let d = sq0();
+    let g = |o: Option<Seq<u8>>| -> Seq<u8> { if o is Some { o.unwrap() } else { d } };
+    lemma_lex_bytes(g(r_scheme(s)), g(r_scheme(t)), g(r_scheme(u)));
+    lemma_ordv_auth(g(r_auth(s)), g(r_auth(t)), g(r_auth(u)));
+    lemma_ordv_path(r_path(s), r_path(t), r_path(u));
+    lemma_pct_ord(g(r_query(s)), g(r_query(t)), g(r_query(u)));
+    lemma_pct_ord(g(r_frag(s)), g(r_frag(t)), g(r_frag(u)));
+}
+pub proof fn lemma_ordv_auth(s: Seq<u8>, t: Seq<u8>, u: Seq<u8>)
+    ensures
+        (ordv_Authority(s, t) == std::cmp::Ordering::Equal) == eqv_Authority(s, t),
+        ordv_Authority(t, s) == ord_rev(ordv_Authority(s, t)),
+        ord_trans_ok(ordv_Authority(s, t), ordv_Authority(t, u), ordv_Authority(s, u)),
+{
+    let d = sq0();
+    let g = |o: Option<Seq<u8>>| -> Seq<u8> { if o is Some { o.unwrap() } else { d } };
+    lemma_pct_ord(g(au_ui(s)), g(au_ui(t)), g(au_ui(u)));
+    lemma_pct_ord(au_host(s), au_host(t), au_host(u));
+    lemma_lex_bytes(g(au_port(s)), g(au_port(t)), g(au_port(u)));
+}
+pub proof fn lemma_ordv_path(s: Seq<u8>, t: Seq<u8>, u: Seq<u8>)
+    ensures
+        (ordv_Path(s, t) == std::cmp::Ordering::Equal) == eqv_Path(s, t),
+        ordv_Path(t, s) == ord_rev(ordv_Path(s, t)),
+        ord_trans_ok(ordv_Path(s, t), ordv_Path(t, u), ordv_Path(s, u)),
+{
+    lemma_lex_segs(norm_segs(s), norm_segs(t), norm_segs(u));
+}
+
+// hashing: equal values feed the hasher the same tokens
+pub proof fn lemma_segs_feed_eqv(a: Seq<Seq<u8>>, b: Seq<Seq<u8>>)
+    requires segl_eqv(a, b),
+    ensures segs_feed(a) == segs_feed(b),
+    decreases a.len()
+{
+    if a.len() > 0 {
+        let ta = a.drop_last(); let tb = b.drop_last();
+        assert forall|i: int| 0 <= i < ta.len() implies eqv_Segment(#[trigger] ta[i], tb[i]) by { assert(eqv_Segment(a[i], b[i])); }
+        lemma_segs_feed_eqv(ta, tb);
+        assert(eqv_Segment(a[a.len() - 1], b[a.len() - 1]));
+    }
+}
+pub proof fn lemma_hash_path(p: Seq<u8>, q: Seq<u8>)
+    requires eqv_Path(p, q),
+    ensures hfeed_Path(p) == hfeed_Path(q),
+{
+    lemma_segs_feed_eqv(norm_segs(p), norm_segs(q));
+}
+pub proof fn lemma_hash_auth(a: Seq<u8>, b: Seq<u8>)
+    requires eqv_Authority(a, b),
+    ensures hfeed_Authority(a) == hfeed_Authority(b),
+{
+}
+/// k1 == k2 (the documented equivalence) implies hash(k1) == hash(k2): every hasher is fed the same tokens - for
+/// UriRef / IriRef and, because Uri / Iri hash as their reference view (proved contract of Uri::hash: hfeed_Ref of the
+/// same text), for every Borrow view of a value
+pub proof fn lemma_hash_ref(s: Seq<u8>, t: Seq<u8>)
+    requires eqv_Ref(s, t),
+    ensures hfeed_Ref(s) == hfeed_Ref(t),
+{
+    lemma_hash_path(r_path(s), r_path(t));
+    if r_auth(s) is Some { lemma_hash_auth(r_auth(s).unwrap(), r_auth(t).unwrap()); }
+}
+} // verus!
